@@ -318,4 +318,141 @@ theorem readStrs_enc : ∀ (ss : List Bytes) (rest : Bytes), (∀ s ∈ ss, s.le
     simp only
     rw [ih rest (fun q hq => h q (by simp [hq]))]
 
+/-- a list with position `i` changed, as a split -/
+theorem set_split {α} (l : List α) (i : Nat) (y : α) (h : i < l.length) :
+    l = l.take i ++ l[i] :: l.drop (i + 1) ∧ l.set i y = l.take i ++ y :: l.drop (i + 1) := by
+  constructor
+  · rw [List.getElem_cons_drop h, List.take_append_drop]
+  · rw [List.set_eq_take_append_cons_drop, if_pos h]
+
+/-! ### a checksum satisfying `CrcDetects1` -/
+
+def sumCrc : Crc := fun bs => UInt32.ofNat (bs.foldl (fun a b => a + b.toNat) 0)
+
+theorem foldl_sum (xs : Bytes) : ∀ init : Nat, xs.foldl (fun a b => a + b.toNat) init = init + xs.foldl (fun a b => a + b.toNat) 0 := by
+  induction xs with
+  | nil => intro i; simp
+  | cons x xs ih => intro i; simp only [List.foldl_cons]; rw [ih (i + x.toNat), ih (0 + x.toNat)]; omega
+
+/-- The hypothesis of the damage theorems is satisfiable: the byte sum modulo 2^32 detects every
+    single-byte change. -/
+theorem sumCrc_detects1 : CrcDetects1 sumCrc := by
+  intro pre post a b hab h
+  unfold sumCrc at h
+  have h' := congrArg UInt32.toNat h
+  simp only [UInt32.toNat_ofNat', List.foldl_append, List.foldl_cons] at h'
+  rw [foldl_sum post, foldl_sum post (_ + b.toNat)] at h'
+  have ha := a.toNat_lt
+  have hb := b.toNat_lt
+  have : a.toNat ≠ b.toNat := fun e => hab (UInt8.toNat_inj.mp e)
+  omega
+
+/-! ### postings lists and the offset table -/
+
+theorem flatMap_putBE32_length (ids : List Nat) : (ids.flatMap putBE32).length = 4 * ids.length := by
+  induction ids with
+  | nil => rfl
+  | cons i ids ih => simp only [List.flatMap_cons, List.length_append, putBE32_length, ih, List.length_cons]; omega
+
+theorem readBE32s_enc : ∀ (ids : List Nat) (rest : Bytes), (∀ i ∈ ids, i < 4294967296) →
+    readBE32s ids.length (ids.flatMap putBE32 ++ rest) = ids := by
+  intro ids
+  induction ids with
+  | nil => intro rest _; rfl
+  | cons i ids ih =>
+    intro rest h
+    simp only [List.length_cons, List.flatMap_cons, List.append_assoc, readBE32s]
+    rw [getBE32_putBE32 (h i (by simp))]
+    simp only
+    rw [ih rest (fun q hq => h q (by simp [hq]))]
+
+def EntryWF (e : TableEntry) : Prop :=
+  e.name.length < 9223372036854775808 ∧ e.value.length < 9223372036854775808 ∧ U64 e.off
+
+theorem putUvarint_two : putUvarint 2 = [2] := rfl
+
+theorem readTableEntries_enc : ∀ (es : List TableEntry) (rest : Bytes), (∀ e ∈ es, EntryWF e) →
+    readTableEntries es.length (es.flatMap encTableEntry ++ rest) = .ok es := by
+  intro es
+  induction es with
+  | nil => intro rest _; simp [readTableEntries]
+  | cons e es ih =>
+    intro rest h
+    obtain ⟨h1, h2, h3⟩ := h e (by simp)
+    simp only [List.length_cons, List.flatMap_cons, encTableEntry, List.append_assoc, putUvarint_two,
+      List.cons_append, List.nil_append]
+    unfold readTableEntries
+    have : uv (2 :: (putUvarintStr e.name ++ (putUvarintStr e.value ++ (putUvarint e.off ++ (es.flatMap encTableEntry ++ rest)))))
+        = .ok (2, putUvarintStr e.name ++ (putUvarintStr e.value ++ (putUvarint e.off ++ (es.flatMap encTableEntry ++ rest)))) := by
+      have := uv_put (n := 2) (by unfold U64; decide) (putUvarintStr e.name ++ (putUvarintStr e.value ++ (putUvarint e.off ++ (es.flatMap encTableEntry ++ rest))))
+      rw [putUvarint_two] at this
+      exact this
+    rw [this]
+    simp only
+    rw [if_neg (by decide), ustr_put h1]
+    simp only
+    rw [ustr_put h2]
+    simp only
+    rw [uv_put h3]
+    simp only
+    rw [ih rest (fun q hq => h q (by simp [hq]))]
+
+/-! ### layout of the whole index file -/
+
+theorem padLen16_aligned (pos : Nat) : (pos + padLen 16 pos) % 16 = 0 := by
+  unfold padLen; omega
+
+theorem placeSeries_ids_length (crc : Crc) : ∀ (ss : List Series) (pos : Nat),
+    (placeSeries crc pos ss).2.length = ss.length := by
+  intro ss
+  induction ss with
+  | nil => intro pos; rfl
+  | cons s ss ih => intro pos; simp [placeSeries, ih]
+
+/-- Every entry sits in the series section at 16 × its id. -/
+theorem placeSeries_spec (crc : Crc) : ∀ (ss : List Series) (pos k : Nat) (s : Series) (id : Nat),
+    ss[k]? = some s → (placeSeries crc pos ss).2[k]? = some id →
+    ∃ a b, (placeSeries crc pos ss).1 = a ++ seriesEntry crc s ++ b ∧ pos + a.length = id * 16 := by
+  intro ss
+  induction ss with
+  | nil => intro pos k s id h; simp at h
+  | cons s0 ss ih =>
+    intro pos k s id hs hid
+    cases k with
+    | zero =>
+      simp only [List.getElem?_cons_zero, Option.some.injEq] at hs
+      subst hs
+      simp only [placeSeries, List.getElem?_cons_zero, Option.some.injEq] at hid
+      refine ⟨zeros (padLen 16 pos), (placeSeries crc (pos + padLen 16 pos + (seriesEntry crc s0).length) ss).1, ?_, ?_⟩
+      · simp [placeSeries]
+      · have := padLen16_aligned pos
+        simp only [zeros, List.length_replicate]
+        omega
+    | succ k =>
+      simp only [List.getElem?_cons_succ] at hs
+      simp only [placeSeries, List.getElem?_cons_succ] at hid
+      obtain ⟨a, b, hab, hlen⟩ := ih _ k s id hs hid
+      refine ⟨zeros (padLen 16 pos) ++ seriesEntry crc s0 ++ a, b, ?_, ?_⟩
+      · simp only [placeSeries, hab, List.append_assoc]
+      · simp only [List.length_append, zeros, List.length_replicate] at hlen ⊢
+        omega
+
+/-- What `writeIndex` puts between the series section and the TOC: padding, postings lists,
+    postings offset table. -/
+def indexMid (crc : Crc) (syms : List Bytes) (series : List Series) : Bytes :=
+  let p1 := indexHeader.length + (symbolTable crc syms).length
+  let ps := placeSeries crc p1 series
+  let p2 := p1 + ps.1.length
+  let pad := padLen 4 p2
+  let pstart := p2 + pad
+  let pp := placePostings crc 0 (allPLists syms series ps.2)
+  zeros pad ++ pp.1 ++ offsetTable crc (pp.2.map fun e => { e with off := e.off + pstart })
+
+theorem writeIndex_bytes (crc : Crc) (syms : List Bytes) (series : List Series) :
+    (writeIndex crc syms series).bytes =
+      indexHeader ++ symbolTable crc syms ++
+        (placeSeries crc (indexHeader.length + (symbolTable crc syms).length) series).1 ++
+        indexMid crc syms series ++ encToc crc (writeIndex crc syms series).toc := by
+  simp only [writeIndex, indexMid, List.append_assoc]
+
 end Prom.BlockIndex
